@@ -16,7 +16,7 @@ def rnd_take(n):
 
 class history:
     OPS = [("take", n) for n in NS] + [("peek", n) for n in NS] + [("skip", n) for n in (-1, 0, 1, 2, 4)] + \
-          [("limit", n) for n in (-1, 0, 1, 2, 4)] + [("copy", None), ("append", None), ("map", None), ("iter", None)]
+          [("limit", n) for n in (-1, 0, 1, 2, 4)] + [("copy", None), ("append", None), ("map", None), ("iter", None), ("filter", None)]
 
     @staticmethod
     def candidates(hints):
@@ -69,6 +69,11 @@ class history:
                 s.append([100, 101]); mdl.extend([100, 101])
             elif name == "map":
                 s.map(lambda v: v + 10); mdl[:] = [v + 10 for v in mdl]
+            elif name == "filter":
+                r = outcome(lambda: s.filter(lambda v: v % 3 != 1))
+                if r[0] != "ok" or r[1] is not s:
+                    return "filter should return the same stream, got %r" % (r,)
+                mdl[:] = [v for v in mdl if v % 3 != 1]
             elif name == "iter":
                 it = iter(s)
                 r = outcome(lambda: next(it))
@@ -149,4 +154,60 @@ class append_then:
         got = list(s)
         if got != exp:
             return "s.append(t); t.%s(...); list(s) = %r, list model says %r" % (op, got, exp)
+        return None
+
+
+class tee:
+    """lazy_itertools.tee: n independent streams over the remaining items, whatever order they are consumed in"""
+    @staticmethod
+    def candidates(hints):
+        for kind in ("stream", "iterator", "generator", "number", "list"):
+            for n in (None, 1, 2, 3):
+                for L in (0, 1, 3):
+                    for pre in (0, 1):
+                        for order in ("forward", "backward", "interleaved"):
+                            yield {"kind": kind, "n": n, "L": L, "pre": pre, "order": order}
+
+    @staticmethod
+    def check(inp):
+        from audiolazy import Stream
+        from audiolazy.lazy_itertools import tee as real
+        kind, n, L, pre, order = inp["kind"], inp["n"], inp["L"], inp["pre"], inp["order"]
+        data = list(range(10, 10 + L))
+        src = {"stream": lambda: Stream(data), "iterator": lambda: iter(data), "generator": lambda: (x for x in data),
+               "number": lambda: 7, "list": lambda: data}[kind]()
+        remaining = list(data)
+        if kind in ("stream", "iterator", "generator"):
+            for _ in range(pre):
+                if remaining:
+                    next(iter(src)); remaining.pop(0)
+        r = outcome(lambda: real(src) if n is None else real(src, n))
+        nn = 2 if n is None else n
+        if r[0] != "ok":
+            return "tee(%s, %r) raised %s" % (kind, n, r[1])
+        outs = r[1]
+        if not isinstance(outs, tuple) or len(outs) != nn:
+            return "tee(%s, %r) returned %r, expected a tuple of %d" % (kind, n, outs, nn)
+        if kind in ("number", "list"):
+            return None if all(o is src for o in outs) else "tee of a non-iterator should be n times the same object, got %r" % (outs,)
+        if not all(isinstance(o, Stream) for o in outs):
+            return "tee(%s) outputs are not all Streams: %r" % (kind, outs)
+        got = [[] for _ in outs]
+        idx = list(range(nn)) if order != "backward" else list(range(nn))[::-1]
+        if order == "interleaved":
+            its = [iter(o) for o in outs]
+            live = list(idx)
+            while live:
+                for i in list(live):
+                    x = outcome(lambda: next(its[i]))
+                    if x[0] == "ok":
+                        got[i].append(x[1])
+                    else:
+                        live.remove(i)
+        else:
+            for i in idx:
+                got[i] = list(outs[i])
+        for i in range(nn):
+            if got[i] != remaining:
+                return "tee(%s, %r) output %d consumed %s yields %r; every output should see the whole remaining sequence %r" % (kind, n, i, order, got[i], remaining)
         return None
